@@ -160,16 +160,21 @@ _sym_cache = {}
 
 
 def symbolize(exe, offs):
-    """module offsets -> function names with one llvm-symbolizer call (cached)"""
+    """module offsets -> function names with one llvm-symbolizer call (cached).  Inlined frames are expanded and the innermost
+    *source-level* function is taken, so that the name does not move when an unrelated change alters the compiler's inlining."""
     need = [o for o in offs if (exe, o) not in _sym_cache]
     if need:
         inp = ''.join('%s 0x%x\n' % (exe, o) for o in need)
         try:
-            p = subprocess.run(['llvm-symbolizer', '--demangle', '--no-inlines'], input=inp.encode(), stdout=subprocess.PIPE, stderr=subprocess.DEVNULL, timeout=120)
+            p = subprocess.run(['llvm-symbolizer', '--demangle'], input=inp.encode(), stdout=subprocess.PIPE, stderr=subprocess.DEVNULL, timeout=120)
             blocks = p.stdout.decode('utf-8', 'replace').strip().split('\n\n')
             for o, blk in zip(need, blocks):
                 lines = blk.strip().splitlines()
-                _sym_cache[(exe, o)] = (lines[0] if lines else '??', lines[1] if len(lines) > 1 else '')
+                # the inline chain of this address, innermost first; the entry used is the innermost one that lies in
+                # libabigail's own sources (an inlined std::vector::operator[] is not the site)
+                chain = [(lines[i], lines[i + 1]) for i in range(0, len(lines) - 1, 2)]
+                mine = [c for c in chain if '/src/abg-' in c[1] or '/include/abg-' in c[1] or '/tools/' in c[1] or '/verif/sim/' in c[1]]
+                _sym_cache[(exe, o)] = mine[0] if mine else (chain[0] if chain else ('??', ''))
         except Exception:
             pass
         for o in need:
@@ -206,6 +211,14 @@ def short_fn(sig):
     return '::'.join(parts[-2:]) if parts else name
 
 
+def site_name(fn, where):
+    """short function name; an unqualified one (the -g1 name of an inlined function) is prefixed with its source file"""
+    n = short_fn(fn)
+    if '::' not in n and where:
+        n = os.path.basename(where.split(':')[0]) + ':' + n
+    return n
+
+
 def crash_site(err_bytes, exe):
     """Innermost libabigail/tool function of a crash: from the assertion text if any, else from the (unsymbolised) sanitizer stack."""
     err = (err_bytes or b'').decode('utf-8', 'replace')
@@ -224,7 +237,7 @@ def crash_site(err_bytes, exe):
         if 'stack-overflow' in err:
             # unbounded recursion: which function of the cycle touches the guard page first depends on where the stack
             # started (environment size, ASLR), so the site is the alphabetically first function of the cycle instead
-            cyc = sorted(set(short_fn(fn) for (fn, where) in names
+            cyc = sorted(set(site_name(fn, where) for (fn, where) in names
                              if ('/src/abg-' in where or '/include/abg-' in where or '/tools/' in where) and not fn.startswith('__')))
             if cyc:
                 return cyc[0], what or 'stack'
@@ -232,7 +245,7 @@ def crash_site(err_bytes, exe):
             if '/verif/sim/' in where or fn.startswith('__') or 'sanitizer' in fn or fn in ('main', '??', 'run_child'):
                 continue
             if '/src/abg-' in where or '/tools/' in where or '/include/abg-' in where or 'abigail' in fn:
-                return short_fn(fn), what or 'stack'
+                return site_name(fn, where), what or 'stack'
         # no libabigail frame at all before the harness: the crash is inside a dependency called from ... nothing of ours
         first = frames[0]
         return 'dep:' + os.path.basename(first[1]), what or 'stack'
